@@ -76,6 +76,8 @@ def attempts_for(mode, tier):
         return [("uf", "z3", 60), ("uf", "sat", 150), ("concrete", "cvc5int", 120), ("concrete", "cadical", long_t)]
     if mode == "ufadd":
         return [("ufadd", "z3", 60), ("ufadd", "sat", 150), ("ufadd", "cadical", long_t), ("concrete", "sat", 150)]
+    if mode == "ufaddc":     # large case-split conditions: cadical is the back end that finishes
+        return [("ufadd", "cadical", long_t), ("ufadd", "z3", 60), ("concrete", "sat", 150)]
     raise Infra("unknown mode " + mode)
 
 
@@ -102,16 +104,17 @@ def canonical_hash(t):
             names[k] = "N%d" % len(names)
         return pre + names[k]
     body = _TOK.sub(ren, body)
-    return sha(body + "|" + t["fn"].row.mode + "|" + str(t["unwind"]))
+    return sha(body + "|" + t["row_mode"] + "|" + str(t["unwind"]))
 
 
-def build_target(fn, job, fns, wd, stem, ll2c_opts=None):
+def build_target(fn, job, fns, wd, stem, ll2c_opts=None, variant=None):
     """writes contracts + harness for one ll2c job result; returns task template (without mode/backend)"""
     if not job.get("ok"):
         raise Infra("ll2c: %s: %s" % (fn.sig.dem, job.get("error")))
     tinfo = job
     txt = ['#include "spec.h"\n']
     ctx = gen.bind(fn, job["target"], tinfo)
+    ctx.variant = variant
     fn.row.build(ctx)
     if getattr(ctx, "skip", None):
         return None
@@ -137,7 +140,8 @@ def build_target(fn, job, fns, wd, stem, ll2c_opts=None):
         else:
             unwind = max(unwind, l["trip"] + 2)
     return {"cfile": job["out"], "contracts": stem + "_contracts.h", "harness": stem + "_harness.h", "target": job["target"]["name"],
-            "replace": replace, "unwind": unwind, "workdir": wd, "stem": stem}
+            "replace": replace, "unwind": unwind, "workdir": wd, "stem": stem, "row_mode": getattr(ctx, "mode", None) or fn.row.mode,
+            "variant": variant, "n_variants": getattr(ctx, "variants", 1)}
 
 
 def run_cases(prop, cases, tier, seed, props_filter=None, keep_workdir=False, ll2c_opts=None, workers=16, post_filter=None, optional_entries=False):
@@ -217,6 +221,15 @@ def run_groups(prop, groups, tier, seed, props_filter=None, ll2c_opts=None, work
                     continue
                 try:
                     t = build_target(fn, job, fns, wd, stem)
+                    more = []
+                    if t is not None and t["n_variants"] > 1:
+                        # a contract stated as a finite case split (each case its own verification condition); all cases must be discharged
+                        more = [build_target(fn, job, fns, wd, "%s_v%d" % (stem, v), variant=v) for v in range(1, t["n_variants"])]
+                        t["variant"] = 0
+                    for tv in more:
+                        tv["fn"], tv["job"] = fn, job
+                        meta[tv["stem"]] = tv
+                        all_tasks.append(tv)
                 except gen.Unsupported as e:
                     # instantiations whose shape the contract row does not describe are listed, never counted
                     rep.notes.setdefault("instantiations_without_contract", []).append({"fn": fn.sig.dem[:160], "reason": str(e)})
@@ -241,7 +254,7 @@ def run_groups(prop, groups, tier, seed, props_filter=None, ll2c_opts=None, work
             t = ts[0]
             tt = dict(t)
             tt.pop("fn"), tt.pop("job")
-            tt["attempts"] = attempts_for(t["fn"].row.mode, tier)
+            tt["attempts"] = attempts_for(t["row_mode"], tier)
             batch.append(tt)
             reps.append(t)
         log("[%s] %d functions under contract, %d distinct verification conditions" % (prop, len(all_tasks), len(batch)))
@@ -257,7 +270,7 @@ def run_groups(prop, groups, tier, seed, props_filter=None, ll2c_opts=None, work
         for stem, r in sorted(final.items()):
             t = meta[stem]
             fn, job = t["fn"], t["job"]
-            rec = {"dem": fn.sig.dem, "name": fn.name, "file": fn.file.replace(REPO + "/", ""), "line": fn.line, "status": r["status"],
+            rec = {"dem": fn.sig.dem + (" [case %d of %d]" % (t["variant"], t["n_variants"]) if t.get("n_variants", 1) > 1 else ""), "name": fn.name, "file": fn.file.replace(REPO + "/", ""), "line": fn.line, "status": r["status"],
                    "n_props": r.get("n_props", 0), "mode": r["mode"], "backend": r["backend"], "seconds": r.get("seconds", 0),
                    "replaced": [c["demangled"].split("(")[0][-60:] for c in job["callees"]], "n_inlined": len(job.get("inlined", [])),
                    "detail": r.get("detail", ""), "failed": r.get("failed", []), "stem": stem, "fn_obj": fn, "task": t,
